@@ -165,7 +165,53 @@ class SchedWorld(object):
             out.append(f.__code__)
         return out
 
+    def _install_db_fault(self):
+        """case['db_fault'] = {'instance': i, 'k': n}: the n-th writing
+        statement issued by a unit of scheduler instance i fails with a
+        deadlock (a transient error the service is expected to survive)."""
+        self._db_fault_fn = None
+        f = self.case.get('db_fault')
+        if not f:
+            return
+        from oslo_db import exception as db_exc
+        from sqlalchemy import event
+        import mistral.db.sqlalchemy.base as b
+        w = self
+        st = {'n': 0, 'hit': False}
+        self.db_fault_hit = st
+
+        def inject(conn, cursor, statement, parameters, context,
+                   executemany):
+            u = w.coop.current()
+            if st['hit'] or u is None or \
+                    u.meta.get('instance') != f['instance'] or \
+                    u.kind == 'sched':
+                return
+            head = statement.lstrip()[:6].upper()
+            if head in ('SELECT', 'PRAGMA'):
+                return
+            st['n'] += 1
+            if st['n'] == f['k']:
+                st['hit'] = True
+                w.rec.emit('FAULT', fault='db-deadlock', stmt=head,
+                           instance=f['instance'])
+                raise db_exc.DBDeadlock()
+        self._db_fault_engine = b.get_engine()
+        self._db_fault_fn = inject
+        event.listen(self._db_fault_engine, 'before_cursor_execute', inject)
+
+    def _remove_db_fault(self):
+        if getattr(self, '_db_fault_fn', None) is not None:
+            from sqlalchemy import event
+            try:
+                event.remove(self._db_fault_engine, 'before_cursor_execute',
+                             self._db_fault_fn)
+            except Exception:
+                pass
+            self._db_fault_fn = None
+
     def _install_failpoint(self):
+        self._install_db_fault()
         from mvf import failpoint
 
         def on_line(code, line):
@@ -185,6 +231,7 @@ class SchedWorld(object):
         failpoint.activate(self._codes(), on_line)
 
     def _remove_failpoint(self):
+        self._remove_db_fault()
         from mvf import failpoint
         failpoint.deactivate()
 
